@@ -50,6 +50,10 @@ PREFIX_TOKENS = {'lock', 'rep', 'repz', 'repnz', 'repe', 'repne', 'data16', 'add
                  'cs', 'ds', 'es', 'ss', 'notrack', 'bnd', 'xacquire', 'xrelease'}
 
 
+_LLVM_PREFIX_LINES = {'lock', 'data16', 'data32', 'addr32', 'addr16', 'rex64', 'cs', 'ds', 'es', 'ss',
+                      'notrack', 'xacquire', 'xrelease'}
+
+
 class Unparsed(Exception):
     pass
 
@@ -350,7 +354,13 @@ def refdis(cands, mode, workdir, tag="x"):
     llvm = {}
     for k, (addr, txt) in enumerate(lines):
         if addr % 16 == 0 and k + 1 < len(lines):
-            llvm[addr] = (lines[k + 1][0] - addr, txt)
+            # llvm-objdump prints some prefixes (lock, data16, ...) as lines of their own
+            j = k
+            while txt.split() and all(t in _LLVM_PREFIX_LINES for t in txt.split()) and j + 2 < len(lines) and \
+                    lines[j + 1][0] < addr + 15:
+                j += 1
+                txt = txt + " " + lines[j][1]
+            llvm[addr] = (lines[j + 1][0] - addr, txt)
     out = []
     for i in range(len(cands)):
         o = obj.get(16 * i, (0, '(bad)'))
@@ -907,13 +917,15 @@ def fp_class(info, st):
     ops = info['ops']
     if re.match(r'^cmp(ps|pd|ss|sd)$', mn) and ops and ops[-1]['kind'] == 'imm' and \
             any(o['kind'] == 'xmm' for o in ops):
-        return "imm8>7" if ops[-1]['val'] > 7 else None
-    if not re.match(r'^(min|max)(ps|pd|ss|sd)$', mn) or len(ops) != 2:
+        if ops[-1]['val'] > 7:
+            return "imm8>7"
+    if not re.match(r'^(min|max|cmp(eq|lt|le|unord|neq|nlt|nle|ord)?)(ps|pd|ss|sd)$', mn) or len(ops) < 2 or \
+            not any(o['kind'] == 'xmm' for o in ops):
         return None
     sfx = mn[-2:]
     w = 4 if sfx in ('ps', 'ss') else 8
     n = 1 if sfx in ('ss', 'sd') else 16 // w
-    vals = [vec_value(o, st) for o in ops]
+    vals = [vec_value(o, st) for o in ops[:2]]
     if any(v is None for v in vals):
         return "lanes:?"
     sign = 1 << (8 * w - 1)
@@ -926,10 +938,11 @@ def fp_class(info, st):
             kinds.add("nan")
         elif all((x & ~sign) == 0 for x in lane) and lane[0] != lane[1]:
             kinds.add("zeros-of-opposite-sign")
-    if "nan" in kinds:
-        return "lanes:nan"
-    if kinds:
-        return "lanes:zeros-of-opposite-sign"
+        elif lane[0] == lane[1] and lane[0] & sign and lane[0] & ~sign:
+            kinds.add("equal-negative")
+    for k in ("nan", "zeros-of-opposite-sign", "equal-negative"):
+        if k in kinds:
+            return "lanes:" + k
     return "lanes:ordinary"
 
 
